@@ -160,6 +160,9 @@ def check_decls(decls, radix, order, with_stores, p):
                 idxs = sorted({0, 1, cnt - 1} | {i for i in range(cnt) if ((a + sz * i) & 0x7FF) in (0x7FC, 0x000, 0x004)})
             for idx in idxs:
                 sts.append(({1: "sb", 2: "sh", 4: "sw"}[sz], name + f"[{idx}]", a + sz * idx, sz))
+            if cnt:
+                # the un-indexed form right behind indexed ones: it must not inherit anything from them
+                sts.append(({1: "sb", 2: "sh", 4: "sw"}[sz], name, a, sz))
         for ci in range(0, len(sts), 12):
             chunk = sts[ci:ci + 12]
             lines = ["li x1, 0xA1B2C3D4"]
